@@ -222,6 +222,14 @@ func propC20(o *out, r *rng, thorough bool) {
 		}
 	}
 	rec(nil)
+	// the time column's alias, verbatim: every spelling, next to fields with and without the same name
+	for _, ta := range []string{"Time", "TIME", "tIme", "time", "t", "", "a", "time_1"} {
+		for _, fs := range []string{"a", "a, \"time\"", "a AS \"time\", b AS \"Time\"", "mean(a), a", "top(a, b, 2)"} {
+			for _, omit := range []bool{false, true} {
+				c20One(o, "SELECT "+fs+" FROM m", omit, ta, "time-alias")
+			}
+		}
+	}
 	n := 4000
 	if thorough {
 		n = 300000
@@ -237,7 +245,7 @@ func propC20(o *out, r *rng, thorough bool) {
 		text := build(idx, al, r.chance(1, 5))
 		ta := ""
 		if r.chance(1, 6) {
-			ta = pick(r, []string{"t", "a", "time"})
+			ta = pick(r, []string{"t", "a", "time", "Time", "TIME", "tIme", "time ", "a_1"})
 		}
 		c20One(o, text, r.chance(1, 6), ta, "random")
 		o.nontrivial(text)
